@@ -70,6 +70,21 @@ Fixpoint wf_blank (bl : blank) : bool :=
   | a :: bl' => wf_atom a && adj_ok a bl' && wf_blank bl'
   end.
 
+(* the last blank of a text: its last atom may be a line comment that runs to the end of input (the grammar demands
+   the newline only when something follows the comment) *)
+Definition adj_ok_eof (a : batom) (rest : blank) : bool :=
+  match a with
+  | BLine _ | BHash _ => match rest with [] => true | _ => adj_ok a rest end
+  | _ => adj_ok a rest
+  end.
+Fixpoint wf_blank_eof (bl : blank) : bool :=
+  match bl with
+  | [] => true
+  | a :: bl' => wf_atom a && adj_ok_eof a bl' && wf_blank_eof bl'
+  end.
+(* [wfb eof bl]: a blank slot; eof = the slot is followed by the end of input *)
+Definition wfb (eof : bool) (bl : blank) : bool := if eof then wf_blank_eof bl else wf_blank bl.
+
 (* ---------- tokens ---------- *)
 Definition is_ident (s : list byte) : bool :=
   match s with
@@ -416,16 +431,342 @@ Definition wf_oanns (a : option (list cann)) : bool := match a with Some l => wf
 Definition sep_none (s : csep) : bool := match s with SepNone => true | SepSome _ _ => false end.
 Definition is_none {A} (o : option A) : bool := match o with None => true | Some _ => false end.
 
-(* ---------- typedef:  typedef <blank> T <blank> alias [blank] [annotations] [separator] ---------- *)
-Record ctypedef := mkCTypedef { ctd_b1 : blank; ctd_type : ctype; ctd_b2 : blank; ctd_alias : Ident; ctd_b3 : blank;
-                                ctd_anns : option (list cann); ctd_sep : csep }.
+Definition wf_sep_at (eof : bool) (s : csep) : bool := match s with SepNone => true | SepSome _ bl => wfb eof bl end.
+
+(* the tail shared by typedef, const, struct / union / exception and service:   [blank] [annotations] [separator]
+   (no blank slot between the annotation list and the separator) *)
+Record ctail := mkTail { t_b : blank; t_anns : option (list cann); t_sep : csep }.
+Definition pr_tail (t : ctail) (k : list byte) : list byte :=
+  pr_blank (t_b t) (pr_oanns (t_anns t) (pr_sep (t_sep t) k)).
+(* [eof]: the declaration is the last thing of the text; then its last blank slot may end with an unterminated comment *)
+Definition wf_tail (eof : bool) (t : ctail) : bool :=
+  wfb (eof && is_none (t_anns t) && sep_none (t_sep t)) (t_b t) && wf_oanns (t_anns t) && wf_sep_at eof (t_sep t).
+(* the text of the tail ends in a blank slot (a blank that follows belongs to that slot) *)
+Definition tail_open (t : ctail) : bool := match t_sep t with SepSome _ _ => true | SepNone => is_none (t_anns t) end.
+(* the tail prints nothing *)
+Definition tail_bare (t : ctail) : bool := is_nil (t_b t) && is_none (t_anns t) && sep_none (t_sep t).
+
+(* the tail of fields and namespaces:   [annotations [blank]] [separator]   (after a blank slot) *)
+Definition pr_tail2 (a : option (list cann * blank)) (s : csep) (k : list byte) : list byte :=
+  match a with Some (l, b) => pr_anns l (pr_blank b (pr_sep s k)) | None => pr_sep s k end.
+Definition wf_tail2 (eof : bool) (a : option (list cann * blank)) (s : csep) : bool :=
+  match a with Some (l, b) => wf_anns l && wfb (eof && sep_none s) b | None => true end && wf_sep_at eof s.
+Definition erase_anns2 (a : option (list cann * blank)) : option Annotations := option_map (fun x => erase_anns (fst x)) a.
+
+(* ---------- typedef:  typedef <blank> T <blank> alias tail ---------- *)
+Record ctypedef := mkCTypedef { ctd_b1 : blank; ctd_type : ctype; ctd_b2 : blank; ctd_alias : Ident; ctd_tail : ctail }.
 Definition pr_typedef (c : ctypedef) (k : list byte) : list byte :=
-  txt "typedef" ++ pr_blank (ctd_b1 c) (pr_type (ctd_type c) (pr_blank (ctd_b2 c) (ctd_alias c ++ pr_blank (ctd_b3 c)
-    (pr_oanns (ctd_anns c) (pr_sep (ctd_sep c) k))))).
+  txt "typedef" ++ pr_blank (ctd_b1 c) (pr_type (ctd_type c) (pr_blank (ctd_b2 c) (ctd_alias c ++ pr_tail (ctd_tail c) k))).
 Definition erase_typedef (c : ctypedef) : Typedef :=
-  mkTypedef (erase_type (ctd_type c)) (ctd_alias c) (erase_oanns (ctd_anns c)).
-Definition wf_typedef (c : ctypedef) : bool :=
+  mkTypedef (erase_type (ctd_type c)) (ctd_alias c) (erase_oanns (t_anns (ctd_tail c))).
+Definition wf_typedef (eof : bool) (c : ctypedef) : bool :=
   wf_blank (ctd_b1 c) && negb (is_nil (ctd_b1 c)) && wf_type (ctd_type c) && wf_blank (ctd_b2 c) && negb (is_nil (ctd_b2 c)) &&
-  is_ident (ctd_alias c) && wf_blank (ctd_b3 c) && wf_oanns (ctd_anns c) && wf_sep (ctd_sep c).
+  is_ident (ctd_alias c) && wf_tail eof (ctd_tail c).
 (* does the text of the declaration end with a word character (so that a following word must be set off)? *)
-Definition typedef_ends_word (c : ctypedef) : bool := is_nil (ctd_b3 c) && is_none (ctd_anns c) && sep_none (ctd_sep c).
+Definition typedef_ends_word (c : ctypedef) : bool := tail_bare (ctd_tail c).
+
+(* ---------- const:  const <blank> T <blank> name [blank] = [blank] value tail ---------- *)
+Record cconstant := mkCConstant { ck_b1 : blank; ck_type : ctype; ck_b2 : blank; ck_name : Ident; ck_b3 : blank; ck_b4 : blank;
+                                  ck_val : cconst; ck_tail : ctail }.
+Definition pr_constant (c : cconstant) (k : list byte) : list byte :=
+  txt "const" ++ pr_blank (ck_b1 c) (pr_type (ck_type c) (pr_blank (ck_b2 c) (ck_name c ++ pr_blank (ck_b3 c)
+    (txt "=" ++ pr_blank (ck_b4 c) (pr_const (ck_val c) (pr_tail (ck_tail c) k)))))).
+Definition erase_constant (c : cconstant) : Constant :=
+  mkConstant (ck_name c) (erase_type (ck_type c)) (erase_const (ck_val c)) (erase_oanns (t_anns (ck_tail c))).
+Definition wf_constant (eof : bool) (c : cconstant) : bool :=
+  wf_blank (ck_b1 c) && negb (is_nil (ck_b1 c)) && wf_type (ck_type c) && wf_blank (ck_b2 c) && negb (is_nil (ck_b2 c)) &&
+  is_ident (ck_name c) && wf_blank (ck_b3 c) && wf_blank (ck_b4 c) && wf_const (ck_val c) && wf_tail eof (ck_tail c).
+Definition constant_ends_word (c : cconstant) : bool := const_ends_word (ck_val c) && tail_bare (ck_tail c).
+
+(* ---------- fields:  id [blank] : [blank] [required|optional <blank>] T [blank] name [blank] [= [blank] value [blank]]
+                       [annotations [blank]] [separator] ---------- *)
+Record cfield := mkCField { cf_id : list byte; cf_b1 : blank; cf_b2 : blank; cf_attr : option (bool * blank);
+                            cf_type : ctype; cf_b3 : blank; cf_name : Ident; cf_b4 : blank;
+                            cf_default : option (blank * cconst * blank); cf_anns : option (list cann * blank); cf_sep : csep }.
+Definition pr_attr (a : option (bool * blank)) (k : list byte) : list byte :=
+  match a with
+  | Some (req, b) => (if req then txt "required" else txt "optional") ++ pr_blank b k
+  | None => k
+  end.
+Definition pr_default (d : option (blank * cconst * blank)) (k : list byte) : list byte :=
+  match d with
+  | Some (b1, v, b2) => txt "=" ++ pr_blank b1 (pr_const v (pr_blank b2 k))
+  | None => k
+  end.
+Definition pr_field (f : cfield) (k : list byte) : list byte :=
+  cf_id f ++ pr_blank (cf_b1 f) (txt ":" ++ pr_blank (cf_b2 f) (pr_attr (cf_attr f) (pr_type (cf_type f)
+    (pr_blank (cf_b3 f) (cf_name f ++ pr_blank (cf_b4 f) (pr_default (cf_default f) (pr_tail2 (cf_anns f) (cf_sep f) k))))))).
+Definition erase_attr (a : option (bool * blank)) : Attribute :=
+  match a with Some (true, _) => ARequired | Some (false, _) => AOptional | None => ADefault end.
+Definition erase_default (d : option (blank * cconst * blank)) : option ConstValue :=
+  match d with Some (_, v, _) => Some (erase_const v) | None => None end.
+Definition unwrap_anns (o : option Annotations) : Annotations := match o with Some l => l | None => [] end.
+Definition erase_field (f : cfield) : Field :=
+  mkField (digits_value 10 (cf_id f)) (cf_name f) (erase_attr (cf_attr f)) (erase_type (cf_type f))
+          (erase_default (cf_default f)) (unwrap_anns (erase_anns2 (cf_anns f))).
+(* the first word of a type, when the type is a path *)
+Definition type_path_head (t : ctype) : option Ident :=
+  match t with CType (CTPath p) _ => Some (cp_head p) | _ => None end.
+Definition head_not_in (t : ctype) (ws : list (list byte)) : bool :=
+  match type_path_head t with Some h => negb (bytes_in h ws) | None => true end.
+Definition wf_attr (a : option (bool * blank)) (t : ctype) : bool :=
+  match a with
+  | Some (_, b) => wf_blank b && negb (is_nil b)
+  | None => head_not_in t [txt "required"; txt "optional"]
+  end.
+Definition default_bare (d : option (blank * cconst * blank)) : bool := is_none d.
+Definition wf_default (d : option (blank * cconst * blank)) : bool :=
+  match d with Some (b1, v, b2) => wf_blank b1 && wf_const v && wf_blank b2 | None => true end.
+Definition field_ends_word (f : cfield) : bool :=
+  sep_none (cf_sep f) && is_none (cf_anns f) &&
+  match cf_default f with Some (_, v, b2) => const_ends_word v && is_nil b2 | None => is_nil (cf_b4 f) end.
+Definition wf_field (f : cfield) : bool :=
+  negb (is_nil (cf_id f)) && is_digits (cf_id f) && (digits_value 10 (cf_id f) <=? 2147483647) &&
+  wf_blank (cf_b1 f) && wf_blank (cf_b2 f) && wf_attr (cf_attr f) (cf_type f) && wf_type (cf_type f) && wf_blank (cf_b3 f) &&
+  (negb (type_ends_word (cf_type f)) || negb (is_nil (cf_b3 f))) && is_ident (cf_name f) && wf_blank (cf_b4 f) &&
+  wf_default (cf_default f) && wf_tail2 false (cf_anns f) (cf_sep f).
+
+(* a run of fields: every field ends in a blank slot; one that ends with a word must not be followed directly by the
+   next field (which begins with a digit) *)
+Fixpoint pr_fields (fs : list cfield) (k : list byte) : list byte :=
+  match fs with [] => k | f :: fs' => pr_field f (pr_fields fs' k) end.
+Fixpoint wf_fields (fs : list cfield) : bool :=
+  match fs with
+  | [] => true
+  | f :: fs' => wf_field f && (is_nil fs' || negb (field_ends_word f)) && wf_fields fs'
+  end.
+
+(* ---------- struct / union / exception:  kw <blank> name [blank] { [blank] fields } tail ---------- *)
+Inductive skind := SKStruct | SKUnion | SKException.
+Definition skind_kw (s : skind) : list byte :=
+  match s with SKStruct => txt "struct" | SKUnion => txt "union" | SKException => txt "exception" end.
+Record cstruct := mkCStruct { cs_name : Ident; cs_b1 : blank; cs_b0 : blank; cs_fields : list cfield; cs_tail : ctail }.
+Definition pr_struct_like (c : cstruct) (k : list byte) : list byte :=
+  cs_name c ++ pr_blank (cs_b1 c) (txt "{" ++ pr_blank (cs_b0 c) (pr_fields (cs_fields c) (txt "}" ++ pr_tail (cs_tail c) k))).
+Definition erase_struct (c : cstruct) : StructLike :=
+  mkStructLike (cs_name c) (map erase_field (cs_fields c)) (erase_oanns (t_anns (cs_tail c))).
+Definition wf_struct (eof : bool) (c : cstruct) : bool :=
+  is_ident (cs_name c) && wf_blank (cs_b1 c) && wf_blank (cs_b0 c) && wf_fields (cs_fields c) && wf_tail eof (cs_tail c).
+
+(* ---------- enum:  enum <blank> name [blank] { [blank] values } [blank] [annotations]
+   value:  name [blank] [= [blank] int [blank]] [annotations] [separator] [blank] ---------- *)
+Record cenumval := mkCEnumVal { ev_cname : Ident; ev_b1 : blank; ev_val : option (blank * cint * blank);
+                                ev_canns : option (list cann); ev_sep : csep; ev_b4 : blank }.
+Definition pr_evalue (v : option (blank * cint * blank)) (k : list byte) : list byte :=
+  match v with Some (b1, i, b2) => txt "=" ++ pr_blank b1 (pr_int i (pr_blank b2 k)) | None => k end.
+Definition pr_enumval (e : cenumval) (k : list byte) : list byte :=
+  ev_cname e ++ pr_blank (ev_b1 e) (pr_evalue (ev_val e) (pr_oanns (ev_canns e) (pr_sep (ev_sep e) (pr_blank (ev_b4 e) k)))).
+Definition erase_enumval (e : cenumval) : EnumValue :=
+  mkEnumValue (ev_cname e) (match ev_val e with Some (_, i, _) => Some (erase_int i) | None => None end) (erase_oanns (ev_canns e)).
+(* the last blank slot is a slot of its own only after an annotation list without separator *)
+Definition wf_enumval (e : cenumval) : bool :=
+  is_ident (ev_cname e) && wf_blank (ev_b1 e) &&
+  match ev_val e with Some (b1, i, b2) => wf_blank b1 && wf_int i && wf_blank b2 | None => true end &&
+  wf_oanns (ev_canns e) && wf_sep (ev_sep e) && wf_blank (ev_b4 e) &&
+  (is_nil (ev_b4 e) || (negb (is_none (ev_canns e)) && sep_none (ev_sep e))).
+Definition enumval_ends_word (e : cenumval) : bool :=
+  sep_none (ev_sep e) && is_none (ev_canns e) && is_nil (ev_b4 e) &&
+  match ev_val e with Some (_, _, b2) => is_nil b2 | None => is_nil (ev_b1 e) end.
+Fixpoint pr_enumvals (l : list cenumval) (k : list byte) : list byte :=
+  match l with [] => k | e :: l' => pr_enumval e (pr_enumvals l' k) end.
+Fixpoint wf_enumvals (l : list cenumval) : bool :=
+  match l with
+  | [] => true
+  | e :: l' => wf_enumval e && (is_nil l' || negb (enumval_ends_word e)) && wf_enumvals l'
+  end.
+Record cenum := mkCEnum { ce_b1 : blank; ce_name : Ident; ce_b2 : blank; ce_b0 : blank; ce_vals : list cenumval;
+                          ce_b3 : blank; ce_anns : option (list cann) }.
+Definition pr_enum (c : cenum) (k : list byte) : list byte :=
+  txt "enum" ++ pr_blank (ce_b1 c) (ce_name c ++ pr_blank (ce_b2 c) (txt "{" ++ pr_blank (ce_b0 c)
+    (pr_enumvals (ce_vals c) (txt "}" ++ pr_blank (ce_b3 c) (pr_oanns (ce_anns c) k))))).
+Definition erase_enum (c : cenum) : Enum :=
+  mkEnum (ce_name c) (map erase_enumval (ce_vals c)) (erase_oanns (ce_anns c)).
+Definition wf_enum (eof : bool) (c : cenum) : bool :=
+  wf_blank (ce_b1 c) && negb (is_nil (ce_b1 c)) && is_ident (ce_name c) && wf_blank (ce_b2 c) && wf_blank (ce_b0 c) &&
+  wf_enumvals (ce_vals c) && wfb (eof && is_none (ce_anns c)) (ce_b3 c) && wf_oanns (ce_anns c).
+
+(* ---------- function:  [oneway <blank>] T <blank> name [blank] ( [blank] fields ) [blank]
+                         [throws [blank] ( [blank] fields+ ) [blank]] [annotations] [separator] ---------- *)
+Record cthrows := mkCThrows { th_b1 : blank; th_b0 : blank; th_fields : list cfield; th_b2 : blank }.
+Record cfunction := mkCFunction { fn_coneway : option blank; fn_type : ctype; fn_b1 : blank; fn_cname : Ident; fn_b2 : blank;
+                                  fn_b0 : blank; fn_args : list cfield; fn_b3 : blank; fn_cthrows : option cthrows;
+                                  fn_canns : option (list cann); fn_sep : csep }.
+Definition pr_throws (t : option cthrows) (k : list byte) : list byte :=
+  match t with
+  | Some t => txt "throws" ++ pr_blank (th_b1 t) (txt "(" ++ pr_blank (th_b0 t) (pr_fields (th_fields t) (txt ")" ++ pr_blank (th_b2 t) k)))
+  | None => k
+  end.
+Definition pr_function (f : cfunction) (k : list byte) : list byte :=
+  (match fn_coneway f with Some b => txt "oneway" ++ pr_blank b (pr_type (fn_type f) (pr_blank (fn_b1 f) (fn_cname f ++ pr_blank (fn_b2 f)
+     (txt "(" ++ pr_blank (fn_b0 f) (pr_fields (fn_args f) (txt ")" ++ pr_blank (fn_b3 f) (pr_throws (fn_cthrows f)
+       (pr_oanns (fn_canns f) (pr_sep (fn_sep f) k)))))))))
+   | None => pr_type (fn_type f) (pr_blank (fn_b1 f) (fn_cname f ++ pr_blank (fn_b2 f)
+     (txt "(" ++ pr_blank (fn_b0 f) (pr_fields (fn_args f) (txt ")" ++ pr_blank (fn_b3 f) (pr_throws (fn_cthrows f)
+       (pr_oanns (fn_canns f) (pr_sep (fn_sep f) k))))))))
+   end).
+(* Function::parse turns arguments without requiredness into required ones *)
+Definition arg_required (f : Field) : Field :=
+  match f_attribute f with
+  | ADefault => mkField (f_id f) (f_name f) ARequired (f_ty f) (f_default f) (f_annotations f)
+  | _ => f
+  end.
+Definition erase_function (f : cfunction) : Function :=
+  mkFunction (fn_cname f) (negb (is_none (fn_coneway f))) (erase_type (fn_type f)) (map arg_required (map erase_field (fn_args f)))
+             (match fn_cthrows f with Some t => map erase_field (th_fields t) | None => [] end) (erase_oanns (fn_canns f)).
+Definition wf_throws (t : option cthrows) : bool :=
+  match t with
+  | Some t => wf_blank (th_b1 t) && wf_blank (th_b0 t) && negb (is_nil (th_fields t)) && wf_fields (th_fields t) && wf_blank (th_b2 t)
+  | None => true
+  end.
+(* a function that does not begin with the word oneway must not have a result type whose first word is oneway (it would
+   be read as the keyword) or throws (it would be read as the throws clause of the preceding function) *)
+Definition wf_function (f : cfunction) : bool :=
+  match fn_coneway f with
+  | Some b => wf_blank b && negb (is_nil b)
+  | None => head_not_in (fn_type f) [txt "oneway"; txt "throws"]
+  end &&
+  wf_type (fn_type f) && wf_blank (fn_b1 f) && negb (is_nil (fn_b1 f)) && is_ident (fn_cname f) && wf_blank (fn_b2 f) &&
+  wf_blank (fn_b0 f) && wf_fields (fn_args f) && wf_blank (fn_b3 f) && wf_throws (fn_cthrows f) && wf_oanns (fn_canns f) &&
+  wf_sep (fn_sep f).
+(* the text of the function ends with the ')' of its annotation list: a blank that follows is not part of it *)
+Definition function_closed (f : cfunction) : bool := negb (is_none (fn_canns f)) && sep_none (fn_sep f).
+
+(* ---------- service:  service <blank> name [<blank> extends <blank> path] [blank] { ([blank] function)* [blank] } tail ---------- *)
+Record cservice := mkCService { sv_b1 : blank; sv_cname : Ident; sv_cextends : option (blank * blank * cpath); sv_b2 : blank;
+                                sv_fns : list (blank * cfunction); sv_b3 : blank; sv_tail : ctail }.
+Fixpoint pr_fns (l : list (blank * cfunction)) (k : list byte) : list byte :=
+  match l with [] => k | (b, f) :: l' => pr_blank b (pr_function f (pr_fns l' k)) end.
+Definition pr_extends (e : option (blank * blank * cpath)) (k : list byte) : list byte :=
+  match e with Some (b1, b2, p) => pr_blank b1 (txt "extends" ++ pr_blank b2 (pr_path p k)) | None => k end.
+Definition pr_service (c : cservice) (k : list byte) : list byte :=
+  txt "service" ++ pr_blank (sv_b1 c) (sv_cname c ++ pr_extends (sv_cextends c) (pr_blank (sv_b2 c) (txt "{" ++
+    pr_fns (sv_fns c) (pr_blank (sv_b3 c) (txt "}" ++ pr_tail (sv_tail c) k))))).
+Definition erase_service (c : cservice) : Service :=
+  mkService (sv_cname c) (match sv_cextends c with Some (_, _, p) => Some (erase_path p) | None => None end)
+            (map (fun x => erase_function (snd x)) (sv_fns c)) (erase_oanns (t_anns (sv_tail c))).
+(* [prev_closed]: the text before the blank slot ends with a token (the '{' or the ')' of an annotation list); otherwise
+   the slot is adjacent to the last blank slot of the preceding function and must be empty *)
+Fixpoint wf_fns (prev_closed : bool) (l : list (blank * cfunction)) : bool :=
+  match l with
+  | [] => true
+  | (b, f) :: l' => wf_blank b && (prev_closed || is_nil b) && wf_function f && wf_fns (function_closed f) l'
+  end.
+Fixpoint last_closed (prev_closed : bool) (l : list (blank * cfunction)) : bool :=
+  match l with [] => prev_closed | (_, f) :: l' => last_closed (function_closed f) l' end.
+Definition wf_extends (e : option (blank * blank * cpath)) : bool :=
+  match e with
+  | Some (b1, b2, p) => wf_blank b1 && negb (is_nil b1) && wf_blank b2 && negb (is_nil b2) && wf_path p
+  | None => true
+  end.
+Definition wf_service (eof : bool) (c : cservice) : bool :=
+  wf_blank (sv_b1 c) && negb (is_nil (sv_b1 c)) && is_ident (sv_cname c) && wf_extends (sv_cextends c) && wf_blank (sv_b2 c) &&
+  wf_fns true (sv_fns c) && wf_blank (sv_b3 c) && (last_closed true (sv_fns c) || is_nil (sv_b3 c)) && wf_tail eof (sv_tail c).
+
+(* ---------- include / cpp_include:  kw <blank> literal [separator];  namespace <blank> scope <blank> path [blank]
+   [annotations [blank]] [separator] ---------- *)
+Definition scope_words : list (list byte) :=
+  [txt "*"; txt "c_glib"; txt "cpp"; txt "delphi"; txt "haxe"; txt "go"; txt "java"; txt "js"; txt "lua"; txt "netstd";
+   txt "perl"; txt "php"; txt "py.twisted"; txt "py"; txt "rb"; txt "st"; txt "xsd"; txt "rs"].
+Record cnamespace := mkCNamespace { ns_b1 : blank; ns_cscope : list byte; ns_b2 : blank; ns_path : cpath; ns_b3 : blank;
+                                    ns_canns : option (list cann * blank); ns_sep : csep }.
+Definition pr_namespace (c : cnamespace) (k : list byte) : list byte :=
+  txt "namespace" ++ pr_blank (ns_b1 c) (ns_cscope c ++ pr_blank (ns_b2 c) (pr_path (ns_path c) (pr_blank (ns_b3 c)
+    (pr_tail2 (ns_canns c) (ns_sep c) k)))).
+Definition erase_namespace (c : cnamespace) : Namespace :=
+  mkNamespace (ns_cscope c) (erase_path (ns_path c)) (erase_anns2 (ns_canns c)).
+Definition wf_namespace (eof : bool) (c : cnamespace) : bool :=
+  wf_blank (ns_b1 c) && negb (is_nil (ns_b1 c)) && bytes_in (ns_cscope c) scope_words && wf_blank (ns_b2 c) &&
+  negb (is_nil (ns_b2 c)) && wf_path (ns_path c) && wfb (eof && is_none (ns_canns c) && sep_none (ns_sep c)) (ns_b3 c) &&
+  wf_tail2 eof (ns_canns c) (ns_sep c).
+
+(* ---------- items and files ---------- *)
+Inductive citem :=
+| CIInclude (b : blank) (l : clit) (s : csep)
+| CICppInclude (b : blank) (l : clit) (s : csep)
+| CINamespace (n : cnamespace)
+| CITypedef (t : ctypedef)
+| CIConst (c : cconstant)
+| CIEnum (e : cenum)
+| CIStruct (kind : skind) (b : blank) (s : cstruct)
+| CIService (s : cservice).
+
+Definition pr_item (it : citem) (k : list byte) : list byte :=
+  match it with
+  | CIInclude b l s => txt "include" ++ pr_blank b (pr_lit l (pr_sep s k))
+  | CICppInclude b l s => txt "cpp_include" ++ pr_blank b (pr_lit l (pr_sep s k))
+  | CINamespace n => pr_namespace n k
+  | CITypedef t => pr_typedef t k
+  | CIConst c => pr_constant c k
+  | CIEnum e => pr_enum e k
+  | CIStruct kind b s => skind_kw kind ++ pr_blank b (pr_struct_like s k)
+  | CIService s => pr_service s k
+  end.
+Definition erase_item (it : citem) : Item :=
+  match it with
+  | CIInclude _ l _ => IInclude (erase_lit l)
+  | CICppInclude _ l _ => ICppInclude (erase_lit l)
+  | CINamespace n => INamespace (erase_namespace n)
+  | CITypedef t => ITypedef (erase_typedef t)
+  | CIConst c => IConstant (erase_constant c)
+  | CIEnum e => IEnum (erase_enum e)
+  | CIStruct SKStruct _ s => IStruct (erase_struct s)
+  | CIStruct SKUnion _ s => IUnion (erase_struct s)
+  | CIStruct SKException _ s => IException (erase_struct s)
+  | CIService s => IService (erase_service s)
+  end.
+Definition wf_item (eof : bool) (it : citem) : bool :=
+  match it with
+  | CIInclude b l s | CICppInclude b l s => wf_blank b && negb (is_nil b) && wf_lit l && wf_sep_at eof s
+  | CINamespace n => wf_namespace eof n
+  | CITypedef t => wf_typedef eof t
+  | CIConst c => wf_constant eof c
+  | CIEnum e => wf_enum eof e
+  | CIStruct _ b s => wf_blank b && negb (is_nil b) && wf_struct eof s
+  | CIService s => wf_service eof s
+  end.
+(* the text of the item ends in a blank slot: a blank that follows belongs to the item *)
+Definition item_open (it : citem) : bool :=
+  match it with
+  | CIInclude _ _ s | CICppInclude _ _ s => negb (sep_none s)
+  | CINamespace _ => true
+  | CITypedef t => tail_open (ctd_tail t)
+  | CIConst c => tail_open (ck_tail c)
+  | CIEnum e => is_none (ce_anns e)
+  | CIStruct _ _ s => tail_open (cs_tail s)
+  | CIService s => tail_open (sv_tail s)
+  end.
+(* the text of the item ends with a word character *)
+Definition item_ends_word (it : citem) : bool :=
+  match it with
+  | CINamespace n => is_nil (ns_b3 n) && is_none (ns_canns n) && sep_none (ns_sep n)
+  | CITypedef t => typedef_ends_word t
+  | CIConst c => constant_ends_word c
+  | _ => false
+  end.
+
+(* a file:  [blank] (item [blank])*  -- the blank after an item is a slot of its own only if the item does not end in a
+   blank slot; an item that ends with a word is set off from the next item; the last blank of the text may end with an
+   unterminated line comment.  A text that consists of a blank only is NOT read by the parser (finding F-15b), so the
+   leading blank of a file without items must be empty. *)
+Record cfile := mkCFile { fl_b0 : blank; fl_items : list (citem * blank) }.
+Fixpoint pr_items (l : list (citem * blank)) (k : list byte) : list byte :=
+  match l with [] => k | (it, b) :: l' => pr_item it (pr_blank b (pr_items l' k)) end.
+Definition pr_file (c : cfile) (k : list byte) : list byte := pr_blank (fl_b0 c) (pr_items (fl_items c) k).
+Fixpoint package_of_items (items : list Item) : option Path :=
+  match items with
+  | [] => None
+  | INamespace n :: rest => if bytes_eq (ns_scope n) (txt "rs") then Some (ns_name n) else package_of_items rest
+  | _ :: rest => package_of_items rest
+  end.
+Definition erase_items (l : list (citem * blank)) : list Item := map (fun x => erase_item (fst x)) l.
+Definition erase_file (c : cfile) : File :=
+  mkFile (package_of_items (erase_items (fl_items c))) (erase_items (fl_items c)).
+Fixpoint wf_items (l : list (citem * blank)) : bool :=
+  match l with
+  | [] => true
+  | (it, b) :: l' =>
+    wf_item (is_nil l' && is_nil b) it && wfb (is_nil l') b && (negb (item_open it) || is_nil b) &&
+    (is_nil l' || negb (item_ends_word it && is_nil b)) && wf_items l'
+  end.
+Definition wf_file (c : cfile) : bool :=
+  wf_blank (fl_b0 c) && (negb (is_nil (fl_items c)) || is_nil (fl_b0 c)) && wf_items (fl_items c).
